@@ -17,6 +17,7 @@ type Printer struct {
 	buf   strings.Builder
 	line  int
 	first bool
+	lastB byte // the layout byte of the last gap
 	Start map[interface{}]int // node (*Expr, *Stmt, *Block for its return, *Rule) -> 1-based line of first token
 	Stop  map[interface{}]int // -> line of last token
 	open  []interface{}
@@ -34,6 +35,17 @@ func (p *Printer) gap() string {
 	}
 	b := p.Lay[p.li%len(p.Lay)]
 	p.li++
+	p.lastB = b
+	if b >= 100 {
+		// the extended range: a tab or a CR LF line end as the only separator; keywords written
+		// after such a gap change case (see tok)
+		switch b % 10 {
+		case 0:
+			return "\t"
+		case 1:
+			return "\r\n"
+		}
+	}
 	switch b % 10 {
 	case 4:
 		return "\n"
@@ -65,11 +77,40 @@ func (p *Printer) tok(s string) {
 			p.Start[n] = p.line
 		}
 	}
+	if p.lastB >= 100 && keywords[s] {
+		// the keywords of the language are case insensitive
+		switch (p.lastB / 10) % 3 {
+		case 1:
+			s = strings.ToUpper(s)
+		case 2:
+			s = strings.ToUpper(s[:1]) + s[1:]
+		}
+	}
 	p.write(s)
 	for _, n := range p.open {
 		p.Stop[n] = p.line
 	}
 }
+
+// intText renders an integer literal; after a gap of the extended layout range it may carry
+// leading zeros (007, -010), which mean the same decimal number.
+func (p *Printer) intText(v int64) string {
+	s := strconv.FormatInt(v, 10)
+	if len(p.Lay) == 0 {
+		return s
+	}
+	if b := p.Lay[p.li%len(p.Lay)]; b >= 100 && b%10 >= 6 {
+		z := strings.Repeat("0", 1+int(b%2))
+		if s[0] == '-' {
+			return "-" + z + s[1:]
+		}
+		return z + s
+	}
+	return s
+}
+
+var keywords = map[string]bool{"rule": true, "begin": true, "end": true, "salience": true, "if": true, "else": true, "for": true, "forRange": true,
+	"break": true, "continue": true, "return": true, "conc": true, "true": true, "false": true}
 
 // nl forces a line break (used between statements in the plain layout).
 func (p *Printer) nl() {
@@ -108,7 +149,7 @@ func (p *Printer) Expr(e *Expr) {
 	}
 	switch e.K {
 	case KInt:
-		p.tok(strconv.FormatInt(e.I, 10))
+		p.tok(p.intText(e.I))
 	case KReal:
 		p.tok(FormatReal(e.F))
 	case KStr:
